@@ -1,5 +1,6 @@
 import Drv.C05
 import Drv.C14
+import Drv.C17
 /- Line protocol driver: one command per line in, one line out. -/
 open Drv
 
@@ -9,6 +10,8 @@ def dispatch (line : String) : String :=
   | "c05.read" :: args => C05.cmdRead args
   | "c05.compress" :: args => C05.cmdCompress args
   | "c14.run" :: args => C14.cmdRun args
+  | "c17.enc" :: args => C17.cmdEnc args
+  | "c17.dec" :: args => C17.cmdDec args
   | "ping" :: _ => "pong"
   | _ => "bad-op"
 
